@@ -16,6 +16,11 @@ Fixpoint lookup {A} (k : id) (l : list (id * A)) : option A :=
 Record ginfo := mkGI { gi_client : id; gi_sub : string; gi_granted : string; gi_origin : id (* code it came from *);
                        gi_res : list string (* resources the owner granted; for owner-less grants: requested *);
                        gi_ownerless : bool }.
+(* a CIBA poll whose validation callback narrowed the grant (BaNarrow): the grant the tokens come from is the narrowed one *)
+Definition poll_gi (r : treq) (gi : ginfo) : ginfo :=
+  match t_ba r with
+  | BaNarrow => mkGI (gi_client gi) (gi_sub gi) narrowed_scopes (gi_origin gi) (gi_res gi) (gi_ownerless gi)
+  | _ => gi end.
 
 Record known := mkKnown {
   k_cbs : list (id * id);          (* callback id -> client *)
@@ -80,7 +85,7 @@ Definition learn (kn : known) (o : op) (x : obs) : known :=
               ((a, mkGI (cr_id (br_cred r)) (br_sub r) (br_granted r) 0 (br_granted_res r) false) :: k_cibas kn)
   | OpToken GCiba r, Out (OTokens t) =>
       match lookup (t_auth_req r) (k_cibas kn) with
-      | Some gi => add_tokens kn gi (tr_at t) (tr_rt t)
+      | Some gi => add_tokens kn (poll_gi r gi) (tr_at t) (tr_rt t)
       | None => kn
       end
   | OpNotifyOk a _, Notified true (nf :: _) =>
@@ -145,7 +150,7 @@ Definition clause_C04 (cfg : config) (kn : known) (now : Z) (o : op) (x : obs) :
       | None => 0 end
   | OpToken GCiba r, Out (OTokens t) =>
       match lookup (t_auth_req r) (k_cibas kn) with
-      | Some gi => c04_tokens gi t
+      | Some gi => c04_tokens (poll_gi r gi) t
       | None => 0 end
   | OpToken GClientCredentials r, Out (OTokens t) =>
       if andb (subset (tr_aud t) (cf_resources cfg)) (subset (tr_aud t) (t_resources r)) then 0 else 4
@@ -342,7 +347,7 @@ Fixpoint c16_from (cs : syscase) (reqs : list (id * (id * id))) (ended : list id
       let bad : N :=
         match o, x with
         | OpToken GCiba r, Out (OTokens _) =>
-            if match t_ba r with BaApprove => false | _ => true end then 3 else
+            if negb (ba_approves (t_ba r)) then 3 else
             if memN (t_auth_req r) ended then 6 else
             match lookup (t_auth_req r) reqs with
             | Some (cl, _) =>
